@@ -137,6 +137,53 @@ def strToIntMatrix (rows : List Bytes) : Option (List Int) :=
 def columnInts (rows : List Bytes) : Option (List Int) :=
   if rows.any (fun r => isNegRow r || isPosRow r) then strToInt rows else strToIntMatrix rows
 
+/-! ### a row selection of a lazily read table (`TextThroughputExtractor.__getitem__`, `_make_contigous`) -/
+
+/-- one selected row of the extractor: its line `[es, ee)` in the shared text and the column's field
+`[fs, fs + fl)` -/
+structure LRow where
+  es : Nat
+  ee : Nat
+  fs : Nat
+  fl : Nat
+deriving Inhabited
+
+/-- `data[start : start + len]` of one field -/
+def fieldOf (data : Bytes) (r : LRow) : Bytes := (data.drop r.fs).take r.fl
+
+/-- `_make_contigous`: the selected lines are copied one after the other into a new text (from
+position `pos` on); every field start moves by (old line start − new line start) -/
+def compactFrom (data : Bytes) (pos : Nat) : List LRow → Bytes × List LRow
+  | [] => ([], [])
+  | r :: rs =>
+    let rest := compactFrom data (pos + (r.ee - r.es)) rs
+    ((data.drop r.es).take (r.ee - r.es) ++ rest.1,
+     ⟨pos, pos + (r.ee - r.es), r.fs + pos - r.es, r.fl⟩ :: rest.2)
+
+def compact (data : Bytes) (rows : List LRow) : Bytes × List LRow := compactFrom data 0 rows
+
+/-- the field lies inside its line, the line inside the text -/
+def WFRow (data : Bytes) (r : LRow) : Prop := r.es ≤ r.fs ∧ r.fs + r.fl ≤ r.ee ∧ r.ee ≤ data.length
+
+/-- the text of a tab-separated table: every field followed by a tab, the last one by a newline -/
+def tableText (lines : List (List Bytes)) : Bytes := (lines.map (fun fs => List.intercalate [9] fs ++ [10])).flatten
+
+/-- line and field positions of column `col` in `tableText lines` (from byte `pos` on) -/
+def lineRows (col : Nat) (pos : Nat) : List (List Bytes) → List LRow
+  | [] => []
+  | fs :: rest =>
+    let lineLen := (fs.map (fun f => f.length + 1)).sum
+    ⟨pos, pos + lineLen, pos + ((fs.take col).map (fun f => f.length + 1)).sum, (fs.getD col []).length⟩ ::
+      lineRows col (pos + lineLen) rest
+
+/-- an integer column read from a row selection of a lazily read table AFTER the selection was
+compacted: `table[idx].col` = `get_digit_array` + `str_to_int` on the compacted text with the shifted
+field starts -/
+def lazyColumnInts (lines : List (List Bytes)) (col : Nat) (idx : List Nat) : Option (List Int) :=
+  let all := lineRows col 0 lines
+  let c := compact (tableText lines) (idx.map (fun i => all.getD i default))
+  columnInts (c.2.map (fieldOf c.1))
+
 /-- a field that `parse_with_missing` treats as absent: empty, or a lone `'.'` -/
 def isMissing (r : Bytes) : Bool := r.length == 0 || r == [46]
 
